@@ -244,7 +244,8 @@ class Ctx:
 
     def drift(self, msg):
         self.notes.append(msg)
-        print("MODEL-DRIFT: property=%s %s" % (self.prop, msg), flush=True)
+        if len(self.notes) <= 5:      # a diagnostic, never a verdict: a few lines are enough, the count goes to the evidence
+            print("MODEL-DRIFT: property=%s %s" % (self.prop, msg), flush=True)
 
     def cleanup(self):
         shutil.rmtree(self.scratch, ignore_errors=True)
@@ -306,6 +307,7 @@ def write_evidence(ctx, n_viol, known):
         tlc_runs=ctx.tlc_runs,
         known_findings_observed=known,
         model_drift=ctx.notes[:20],
+        model_drift_count=len(ctx.notes),
     )
     if ctx.level == "translation_validation":
         cov["programs"] = ctx.programs
